@@ -26,14 +26,22 @@ type LeveldbDiskStorage struct {
 
 // Create a new table, destroying any existing table.
 func (f LeveldbDiskStorage) Create(tbl *btapb.Table) Rows {
-	f.SetTableMeta(tbl)
 	path := filepath.Join(f.Root, tbl.Name)
 	newFunc := func(nuke bool) *leveldb.DB {
 		return newDiskDb(path, nuke)
 	}
 
+	// Wipe whatever an earlier table of this name left behind and open the empty database BEFORE the definition
+	// is persisted: a table exists exactly if its definition file exists, so if the process dies in between, the
+	// table does not exist yet - instead of existing with the rows of its deleted predecessor.
+	if err := os.MkdirAll(filepath.Dir(path), 0777); err != nil {
+		f.errLog(err, "os.MkdirAll %q", filepath.Dir(path))
+	}
+	db := newFunc(true)
+	f.SetTableMeta(tbl)
+
 	return &leveldbRows{
-		db:      newFunc(true),
+		db:      db,
 		newFunc: newFunc,
 	}
 }
